@@ -118,6 +118,17 @@ func runC11(t *mon.T, raw json.RawMessage) {
 		if r.Intn(4) == 0 { // same digest, other offset (duplicate block)
 			recs = append(recs, c11Rec{c, uint64(r.Int63())})
 		}
+		if sc, _, _ := refcar.SplitCid(c); len(sc.Digest) > 0 && r.Intn(3) == 0 {
+			// near-collisions in the same bucket: same code and width, digest differing in ONE byte at a
+			// seeded position (often late), so that entries share long prefixes — ordering and binary
+			// search must still be exact (identity CIDs and non-cryptographic hashes look like this)
+			for k := 0; k < 1+r.Intn(3); k++ {
+				nd := append([]byte{}, sc.Digest...)
+				nd[r.Intn(len(nd))] ^= byte(1 + r.Intn(255))
+				recs = append(recs, c11Rec{refcar.MakeCidV1(sc.Codec, sc.MhCode, nd), uint64(r.Int63())})
+			}
+			t.Cover("multisets-with-shared-digest-prefixes")
+		}
 		if r.Intn(5) == 0 { // same digest under another hash code
 			sc, _, _ := refcar.SplitCid(c)
 			recs = append(recs, c11Rec{refcar.MakeCidV1(0x55, sc.MhCode^0x1, sc.Digest), uint64(r.Int63())})
@@ -353,10 +364,10 @@ func init() {
 	Register(&mon.Check{
 		ID:          "C11",
 		Level:       "exploration",
-		Rule:        "cases = (a) seeded record multisets (8 hash codes, digest widths 0..80, repeated digests with distinct offsets and under other hash codes, offsets up to 2^63-1) loaded in 8 (quick) / 24 (thorough) permutations into both on-disk codecs: reported byte count, strict reference parse, bucket/entry order, multiset equality, permutation invariance, ReadFrom round trip (seekable and plain reader) with identical GetAll/ForEach and byte-identical re-marshal; (b) writing sessions (1-12 blocks, plus a few with 17k-75k tiny blocks so that the in-memory index is large when flattened) whose embedded (flattened) index is compared with GenerateIndex over the finished payload",
+		Rule:        "cases = (a) seeded record multisets (8 hash codes, digest widths 0..80, repeated digests with distinct offsets and under other hash codes, digests differing in a single late byte (shared prefixes), offsets up to 2^63-1) loaded in 8 (quick) / 24 (thorough) permutations into both on-disk codecs: reported byte count, strict reference parse, bucket/entry order, multiset equality, permutation invariance, ReadFrom round trip (seekable and plain reader) with identical GetAll/ForEach and byte-identical re-marshal; (b) writing sessions (1-12 blocks, plus a few with 17k-75k tiny blocks so that the in-memory index is large when flattened) whose embedded (flattened) index is compared with GenerateIndex over the finished payload",
 		Assumptions: []string{"reference index parser/builder (refcar)", "order among entries sharing one digest is left open by the format and is canonicalised before comparison"},
 		Gen:         genC11,
 		Run:         runC11,
-		MinCover:    map[string]int{"multisets-with-repeated-digest": 20, "sessions": 50, "sessions-without-repeated-digest": 10, "sessions-with-repeated-digest": 5, "big-sessions": 3},
+		MinCover:    map[string]int{"multisets-with-repeated-digest": 20, "multisets-with-shared-digest-prefixes": 50, "sessions": 50, "sessions-without-repeated-digest": 10, "sessions-with-repeated-digest": 5, "big-sessions": 3},
 	})
 }
